@@ -20,6 +20,7 @@ RULE = ('validity, exhaustive: weeks {00,01,52,53,54} for every year 1..Y; dates
         '(Y=12000 in both tiers; quick sweeps dates on every 7th year and all multiples of 100).  Ordering: random (min, max, value) triples per type incl. equal bounds, '
         'missing/invalid parts and wrapped time ranges.  Non-trivial = a valid string, or an invalid one that differs from a '
         'valid one in one field; distinct = distinct (type, min, max, value).')
+RULE += (' Round-4 additions: non-ASCII decimal digits at every digit position of every type; every observation also asks both pseudo-classes inside one call (6 combined selectors) and compares with the separate answers.')
 ASSUMPTIONS = [
     'compared string shapes: YYYY-MM-DD, YYYY-MM, YYYY-Www, HH:MM, YYYY-MM-DDTHH:MM, optional-sign decimal numbers; seconds, '
     'fractions, the space separator and exponent notation are unspecified and not generated as *valid* candidates',
